@@ -156,6 +156,7 @@ def gen_batch(rng, trx, roadm_of):
                 SYNCS.append(S.synchronization(901, [r2_['request-id'], t['request-id']]))
                 kinds[r['request-id']] = kinds[r2_['request-id']] = 'duplicate-in-sync'
                 i += 1
+    S.intify(rng, reqs)
     return reqs, kinds
 
 
